@@ -278,6 +278,32 @@ pub fn run(ctx: &Ctx) -> i32 {
         Acc::merge,
         acc_zero,
     );
+    // 4b. symbols by name: every scalar value as a one-character name, as the first and as the second character of a
+    // two-character name, interned the way string->symbol does (these need not be spellable as a bare token)
+    let a_symname = par_fold(
+        0x110000u64 * 3,
+        4096,
+        || None::<Vm>,
+        |vm, acc, i| {
+            let c = match char::from_u32((i / 3) as u32) {
+                Some(c) => c,
+                None => return,
+            };
+            let name: String = match i % 3 {
+                0 => c.to_string(),
+                1 => [c, 'a'].iter().collect(),
+                _ => ['a', c].iter().collect(),
+            };
+            let sym = Cell::Symbol(parse::canonical_symbol_name(&name));
+            acc.count("symbols_by_name", 1);
+            trip(acc, vm, &sym, "symbol-by-name", i % 48 < 3);
+            if i % 16 == 0 {
+                trip(acc, vm, &data::list(vec![Cell::Symbol("x".into()), sym.clone(), Cell::Symbol("y".into())]), "symbol-by-name-in-list", false);
+            }
+        },
+        Acc::merge,
+        acc_zero,
+    );
     // 5. containers: shape chains and small trees
     let n_leaves = data::leaf_atoms().len();
     let depth = std::env::var("C10_DEPTH").ok().and_then(|s| s.parse().ok()).unwrap_or(ctx.tier.pick(4u32, 6u32));
@@ -318,11 +344,11 @@ pub fn run(ctx: &Ctx) -> i32 {
     rep.extra("container_depth", json!(depth));
     rep.extra("small_trees", json!(n_trees));
     let mut acc = Acc::new();
-    for a in [a_chars, a_str, a_int, a_dbl, a_sym, a_cont, a_tree] {
+    for a in [a_chars, a_str, a_int, a_dbl, a_sym, a_symname, a_cont, a_tree] {
         acc = Acc::merge(acc, a);
     }
     rep.rule = format!(
-        "datum d -> format!(\"{{:#}}\") -> parse_text -> d' must be one datum identical to d in structure, value and exactness, and write(d') = write(d); Vm::eval((quote d)) must return d. Enumerated: every Unicode scalar value as a character, as a one-character string and as a list element; all strings of <= 3 characters over {:?}; {} exact numbers (integers k*2^e+d around the fixnum/bignum boundary, the C08 palette in every representation, reduced rationals); doubles structurally exhaustively: every exponent field x {} mantissa patterns x both signs = {} plus {} special values; every token of <= 3 characters over a 23-character alphabet (<= 2 over 27) that the reader classifies as a symbol; all container chains of depth <= {} over 12 one-hole shapes x {} leaves; all trees of <= {} nodes over 6 atoms. A case is non-trivial when the full trip succeeded; cases are distinct data.",
+        "datum d -> format!(\"{{:#}}\") -> parse_text -> d' must be one datum identical to d in structure, value and exactness, and write(d') = write(d); Vm::eval((quote d)) must return d. Enumerated: every Unicode scalar value as a character, as a one-character string and as a list element; all strings of <= 3 characters over {:?}; {} exact numbers (integers k*2^e+d around the fixnum/bignum boundary, the C08 palette in every representation, reduced rationals); doubles structurally exhaustively: every exponent field x {} mantissa patterns x both signs = {} plus {} special values; every token of <= 3 characters over a 23-character alphabet (<= 2 over 27) that the reader classifies as a symbol; every scalar value as a one-character symbol name and as the first / second character of a two-character name, interned as string->symbol does (3.3 M symbols); all container chains of depth <= {} over 12 one-hole shapes x {} leaves; all trees of <= {} nodes over 6 atoms. A case is non-trivial when the full trip succeeded; cases are distinct data.",
         STR_CHARS, n_ints, 24, nd, specials.len(), depth, n_leaves, ctx.tier.pick(3, 4)
     );
     rep.assumptions.push("infinities and NaN are outside the property; of the 2^63 finite doubles the structured set above is covered, the rest is not claimed".into());
